@@ -13,5 +13,7 @@ obs = r[0] if isinstance(r, tuple) else r
 for o in obs:
     if hasattr(o, 'status'):
         print(o.status, o.name, round(o.time_s, 1), o.detail[:300])
+        if o.status != 'discharged':
+            print((o.output or '')[-4000:])
     else:
         print(o)
